@@ -2,7 +2,7 @@
 
 FS = ('FS layer: RollingWriter::{write,persist,forward,num_bytes_remaining_in_block,current_file} are VERIFIED against the BlockWrite contract over ghost state and the ASSUMED contracts of the '
       'BufWriter<File> stand-in vshim::BufFile (R17: with_capacity/write_all/flush/sync_data/seek; content/flushed/synced ghost lengths) plus one named assumption A-stream-bound (fewer than 2^62 bytes through one writer); '
-      'RollingReader::{open,next_block,block,into_writer} (into_writer through R27 and the assumed contract of <File as Seek>::seek: the writer continues in the reader's file, with the reader's tracker, at the start of the block the reader stood on), read_block (only the error kind UnexpectedEof becomes "no more block"), FileTracker::{take_first_unused,first,count,next,inc,new} (next/inc over the R26 shim for BTreeSet::range(..).next()), Directory::{gc,has_files_that_can_be_deleted,first_file_number}, {Frame,Record}Writer::directory are VERIFIED against the ghost FS model of spec/vfs.rs (RollingReader::open over the read_exact stand-in R20, its body verified under the name open__verif_impl, DESIGN.md 13.10); '
+      'RollingReader::{open,next_block,block,into_writer} (into_writer through R27 and the assumed contract of <File as Seek>::seek: the writer continues in the file the reader stood in, with the same tracker, at the start of the block the reader stood on), read_block (only the error kind UnexpectedEof becomes "no more block"), FileTracker::{take_first_unused,first,count,next,inc,new} (next/inc over the R26 shim for BTreeSet::range(..).next()), Directory::{gc,has_files_that_can_be_deleted,first_file_number}, {Frame,Record}Writer::directory are VERIFIED against the ghost FS model of spec/vfs.rs (RollingReader::open over the read_exact stand-in R20, its body verified under the name open__verif_impl, DESIGN.md 13.10); '
       'still trusted (contracts assumed): Directory::{open,open_file,sync_directory}, create_file, the read_exact stand-ins (R20), FileTracker::from_file_numbers, RollingWriter::size, FileNumber::can_be_deleted; named assumptions A-file-number-bound (file numbers below 2^63), A-file-size (a WAL file holds at most 4096 full blocks) and A-stream-bound, each an explicit `assume` counted by the mechanical scan')
 
 LEMMAS = {
